@@ -84,6 +84,11 @@ func (cm *MemChatManager) Members(id ChatID) []*ClientConn {
 
 	var members []*ClientConn
 	for _, cc := range chat.ClientConn {
+		// A member that has disconnected is no longer a member: its user ID may since have been handed to
+		// another user, who must not receive this chat's traffic.
+		if cc.Server != nil && cc.Server.ClientMgr != nil && cc.Server.ClientMgr.Get(cc.ID) != cc {
+			continue
+		}
 		members = append(members, cc)
 	}
 
